@@ -362,6 +362,10 @@ func (wd *World) runOp(op Op) {
 		if op.A == 1 {
 			wd.sample(true)
 		}
+		if op.A == 3 {
+			wd.sampleIdle(1)
+			wd.sample(true)
+		}
 	case opAdvance:
 		// only the clock moves; nobody waits for quiescence here
 		simrt.Sleep(time.Duration(op.A) * timeUnit)
@@ -461,10 +465,42 @@ func (wd *World) sample(atRest bool) {
 	c.Str = w.Status()
 	r.end(c)
 	cs = append(cs, c)
+	// census of the goroutines the library started (the simulator's task table is
+	// the exact equivalent of a goroutine dump filtered to library frames)
+	pool, loops, reapers, listeners, other := wd.libCensus()
+	for i, v := range []int{pool, loops, reapers, listeners, other} {
+		c := r.begin(opSample, -1, -1)
+		c.Arg = 30 + i
+		c.Val = v
+		r.end(c)
+		cs = append(cs, c)
+	}
 	_, sw1, _, _, _, _ := simrt.Stats()
 	if atRest && sw0 == sw1 {
 		for _, c := range cs {
 			c.AtRest = true
 		}
 	}
+}
+
+// libCensus counts the live tasks created by library code, by creator.
+func (wd *World) libCensus() (pool, loops, reapers, listeners, other int) {
+	for _, t := range simrt.Tasks() {
+		if !t.Lib || t.IsExited() || simrt.IsFrozen(t) {
+			continue
+		}
+		switch t.Name {
+		case "worker.initPoolNode":
+			pool++
+		case "worker.goEventLoop":
+			loops++
+		case "worker.goRemoveIdleWorkers":
+			reapers++
+		case "worker.goListenToContext":
+			listeners++
+		default:
+			other++
+		}
+	}
+	return
 }
